@@ -21,12 +21,20 @@ impl ZoneCombiner {
             return CandidateZone::uniq(self.zones[0].clone());
         }
 
-        let maps: Vec<HashMap<(u32, String), CandidateZone>> = self
+        // Zone ids are only unique per (segment, uid). Wildcard (`*`) scopes tag every zone
+        // with its uid, so it must be part of the key or zones of different event types
+        // collapse. Specific scopes may mix tagged and untagged zones for their single uid
+        // (index-derived zones carry no uid), so only key on the uid when all zones have one.
+        let key_by_uid = self.zones.iter().flatten().all(|z| z.uid().is_some());
+        let maps: Vec<HashMap<(u32, String, Option<String>), CandidateZone>> = self
             .zones
             .iter()
             .map(|set| {
                 set.iter()
-                    .map(|z| ((z.zone_id, z.segment_id.clone()), z.clone()))
+                    .map(|z| {
+                        let uid = z.uid().filter(|_| key_by_uid).map(str::to_string);
+                        ((z.zone_id, z.segment_id.clone(), uid), z.clone())
+                    })
                     .collect()
             })
             .collect();
@@ -77,6 +85,7 @@ impl ZoneCombiner {
             a.segment_id
                 .cmp(&b.segment_id)
                 .then_with(|| a.zone_id.cmp(&b.zone_id))
+                .then_with(|| a.uid().cmp(&b.uid()))
         });
         CandidateZone::uniq(zones)
     }
